@@ -774,6 +774,22 @@ def run(ctx):
             ctx.violation("%s:hang" % PROPERTY, "the implementation did not return within %d s" % CASE_TIMEOUT_S,
                           {"suite": "clock", "kind": kind, "input": lines, "first_failing_clause": "hang"})
             continue
+        if err and "ClockException" in err.strip().splitlines()[-1]:
+            # the implementation refused the rates already while the timeline / clock was being built (the property allows
+            # a refusal "no later than the first tick"): legitimate iff some pair of rates in the case does not divide
+            rates = []
+            for l in lines:
+                w = l.split()
+                if w and w[0] in ("tl", "clk", "slave"):
+                    rates += [int(x) for x in w[1:] if x.isdigit() and int(x) > 0]
+            incompatible = any(a % b and b % a for a in rates for b in rates)
+            ctx.case(tuple(lines[1:]), nontrivial=True, validated=False)
+            ctx.count("kind:" + kind, "refused-at-construction")
+            if not incompatible:
+                ctx.violation("%s:refused-dividing-rates-at-construction" % PROPERTY,
+                              "ClockException while building the timeline / clock although every rate divides or is a multiple of the others: %s" % rates,
+                              {"suite": "clock", "kind": kind, "input": lines, "first_failing_clause": "refused iff not dividing"})
+            continue
         if err:
             raise RuntimeError("harness error while executing %s:\n%s\ninput:\n%s" % (cid, err, "\n".join(lines)))
         nt = nontrivial(kind, lines, impl)
